@@ -959,14 +959,14 @@ func buildProbeC10() (map[string]interface{}, *FoundViolation) {
 		return "absent"
 	}
 	def := filepath.Join(scratch, "fundraisingd")
-	if err := buildDefaultBinary("/repo", def, ""); err != nil {
+	if err := buildDefaultBinary(repoDir(), def, ""); err != nil {
 		out["error"] = "build: " + err.Error()
 		return out, nil
 	}
 	dShort := short(def)
 	out["default_build"] = dShort
 	ctl := filepath.Join(scratch, "fundraisingd-testing")
-	if err := buildDefaultBinary("/repo", ctl, "-X github.com/tendermint/fundraising/x/fundraising/keeper.enableAddAllowedBidder=true"); err == nil {
+	if err := buildDefaultBinary(repoDir(), ctl, "-X github.com/tendermint/fundraising/x/fundraising/keeper.enableAddAllowedBidder=true"); err == nil {
 		out["testing_link_flag_build"] = short(ctl)
 	} else {
 		out["testing_link_flag_build"] = "build failed"
